@@ -42,7 +42,17 @@ def _trunc_int(v):
     return SI(k)
 
 
+SIGN_FORK = [True]       # False: numbers are registered signed, no fork on the sign (report readers)
+FMT_HOOK = [None]        # set by symx.decimal mode: (spec text, arg) -> object or None
+
+
 def _fmt_one(m, arg):
+    if FMT_HOOK[0] is not None and is_sym(arg):
+        r = FMT_HOOK[0](m.group(0), arg)
+        if r is not None:
+            return r
+    if hasattr(arg, 'padded') and m.group('conv') == 's':
+        return arg.padded(int(m.group('width') or 0))
     flags, width, prec, conv = m.group('flags') or '', m.group('width'), m.group('prec'), m.group('conv')
     spec = m.group(0)
     if isinstance(arg, SC):
@@ -55,6 +65,23 @@ def _fmt_one(m, arg):
         return spec % (arg,)
     if isinstance(arg, SB):
         raise HarnessError('formatting a symbolic bool')
+    if not SIGN_FORK[0] and conv in 'dieEfFgG':
+        if conv in 'di':
+            if isinstance(arg, SR):
+                # truncation toward zero of a signed real, no fork
+                c = ctx()
+                k = c.fresh('trunc', 'int')
+                K = SR(z3.ToReal(k))
+                c.axiom(z3.Or(z3.And((arg >= 0).t, (K <= arg).t, (arg < K + 1).t),
+                              z3.And((arg < 0).t, (K >= arg).t, (arg > K - 1).t)))
+                body = _register(SI(k), 'x', None, exact=True)
+            else:
+                body = _register(arg, 'x', None, exact=True)
+        else:
+            p = 6 if prec is None else int(prec)
+            body = _register(SR.lift(arg), conv.lower(), p)
+            ctx().tokens[int(PH.fullmatch(body).group(1))]['signed'] = True
+        return _pad(body, flags, int(width)) if width else body
     # symbolic number: fork on the sign, register the magnitude
     if conv in 'di':
         if isinstance(arg, SR):
@@ -111,7 +138,7 @@ def sx_mod(left, right):
     """The `%` operator of the shadow modules."""
     if isinstance(left, str):
         args = right if isinstance(right, tuple) else (right,)
-        symbolic = any(is_sym(a) or has_token(a) for a in args)
+        symbolic = any(is_sym(a) or has_token(a) or hasattr(a, 'padded') for a in args)
         if not symbolic:
             return left % right
         out = []
@@ -127,7 +154,13 @@ def sx_mod(left, right):
                 a = next(it)
             except StopIteration:
                 raise TypeError('not enough arguments for format string')
-            out.append(_fmt_one(m, a))
+            piece = _fmt_one(m, a)
+            if not isinstance(piece, str):
+                # a symbolic decimal string: only allowed as the whole result
+                if left.strip() != m.group(0):
+                    raise HarnessError('symbolic decimal inside a longer format %r' % left)
+                return piece
+            out.append(piece)
         out.append(left[pos:])
         rest = list(it)
         if rest:
@@ -172,16 +205,20 @@ def _token_value(k):
     conv, p = t['conv'], t['prec']
     r = SR(c.fresh('read%d' % k))
     v = SR.lift(mag)
-    c.axiom((r >= 0).t)
+    if t.get('signed'):
+        va = abs(v)
+    else:
+        va = v
+        c.axiom((r >= 0).t)
     if conv == 'g':
         if p >= 15:
             t['read'] = v
             return v
         rel = Fraction(1, 2) * Fraction(10) ** (1 - max(p, 1))
-        c.axiom((abs(r - v) <= v * rel).t)
+        c.axiom((abs(r - v) <= va * rel).t)
     elif conv == 'e':
         rel = Fraction(1, 2) * Fraction(10) ** (-p)
-        c.axiom((abs(r - v) <= v * rel).t)
+        c.axiom((abs(r - v) <= va * rel).t)
     elif conv == 'f':
         ab = Fraction(1, 2) * Fraction(10) ** (-p)
         c.axiom((abs(r - v) <= ab).t)
@@ -282,3 +319,19 @@ def read_exact(s):
 def format_float_stub(floats, use_e=0):
     """Token-producing replacement of util.format_float outside C19 (DESIGN 2.6)."""
     return tuple(exact(f) for f in floats)
+
+
+def read_field(s):
+    """Value a reader obtains from one numeric field of a report: exact token, printf token
+    (with the rounding bound its conversion carries), or a literal."""
+    s = s.strip()
+    m = PH.fullmatch(s.lstrip('+-'))
+    if m:
+        k = int(m.group(1))
+        t = ctx().tokens[k]
+        if t['conv'] == 'x':
+            v = t['mag']
+        else:
+            v = _token_value(k)
+        return -v if s.startswith('-') else v
+    return float(s)
